@@ -13,7 +13,7 @@ InDomain(e) ==
   /\ Len(e.data) = NBytes(e.nbits) /\ MaskBits(e.data, e.nbits) = e.data
   /\ (e.alg = 2 \/ e.op = "NASMacCalculate") => e.nbits % 8 = 0
 Verdict(e) ==
-  IF ~InDomain(e) THEN "ok"
+  IF ~InDomain(e) THEN "out-of-domain"      \* the harness only makes in-domain calls: reported, treated as a harness problem
   ELSE IF e.panic THEN "panic"
   ELSE IF e.err THEN "error"
   ELSE IF Len(e.out) # 4 THEN "length"
